@@ -22,6 +22,9 @@
 #include <sys/syscall.h>
 #include <linux/futex.h>
 #include <cxxabi.h>
+#include <pthread.h>
+#include <errno.h>
+#include <time.h>
 
 namespace {
 
@@ -70,12 +73,23 @@ int g_calib_tid = -1;  // sequential calibration: attribute entries to this logi
 inline void futex_wait(std::atomic<int>* a, int val) {
   syscall(SYS_futex, (int*)a, FUTEX_WAIT_PRIVATE, val, nullptr, nullptr, 0);
 }
+inline void futex_wait_ms(std::atomic<int>* a, int val, long ms) {
+  struct timespec ts; ts.tv_sec = ms / 1000; ts.tv_nsec = (ms % 1000) * 1000000L;
+  syscall(SYS_futex, (int*)a, FUTEX_WAIT_PRIVATE, val, &ts, nullptr, 0);
+}
+// Free-running fallback: a released thread that does not reach its next scheduling point within the
+// watchdog time is (in code that holds the property) spinning on something a parked thread must do.
+// The simulator then stops serialising and lets every thread run; if they still do not finish, the
+// run is stuck for real (deadlock / livelock) and is reported as such.
+std::atomic<int> g_freerun(0);
+long g_watchdog_ms = 4000, g_freerun_ms = 8000;
 inline void futex_wake(std::atomic<int>* a) {
   syscall(SYS_futex, (int*)a, FUTEX_WAKE_PRIVATE, INT_MAX, nullptr, nullptr, 0);
 }
 
 void park(int st, int reason, unsigned tag) {
   const int t = tl_tid;
+  if (g_freerun.load(std::memory_order_acquire)) return;
   g_reason[t] = reason;
   g_tag[t] = tag;
   g_go[t].store(0, std::memory_order_relaxed);
@@ -84,6 +98,7 @@ void park(int st, int reason, unsigned tag) {
   futex_wake(&g_sched_word);
   while (g_go[t].load(std::memory_order_acquire) == 0) futex_wait(&g_go[t], 0);
 }
+bool in_freerun() { return g_freerun.load(std::memory_order_acquire) != 0; }
 
 // ---------------------------------------------------------------------------
 // ELF symbol table: function-local statics and their guards
@@ -174,6 +189,10 @@ uint64_t g_rand_draws = 0;
 std::vector<std::pair<uint64_t, int> > g_rand_extremes;
 long g_rand_extremes_fired = 0;
 
+// lock seam bookkeeping
+long g_lock_blocks = 0, g_lock_ops = 0;
+const void* g_lock_seen[256]; int g_nlock_seen = 0;
+
 // tsan
 std::atomic<int> g_tsan_reports(0);
 long g_tsan_first_step = -1;
@@ -210,6 +229,8 @@ void vs_sim_begin(uint64_t seed, int nthreads, int policy, int pct_depth,
   for (int i = 0; i < pct_depth; ++i)
     g_pct_points.push_back((long)g_rng.below((uint32_t)std::max(1L, est_steps)));
   g_have_replay = false; g_replay.clear();
+  g_freerun.store(0);
+  g_nlock_seen = 0; g_lock_blocks = 0; g_lock_ops = 0;
   g_active = true;
 }
 
@@ -264,8 +285,15 @@ int vs_tid_self(void) { return tl_tid; }
 // ===========================================================================
 // scheduler loop (main thread)
 // ===========================================================================
+static long wall_ms() { struct timespec ts; clock_gettime(CLOCK_MONOTONIC, &ts); return ts.tv_sec * 1000L + ts.tv_nsec / 1000000L; }
+static int g_used_freerun = 0;
+int vs_used_freerun(void) { return g_used_freerun; }
+void vs_set_watchdog_ms(long stuck_ms, long freerun_ms) { g_watchdog_ms = stuck_ms; g_freerun_ms = freerun_ms; }
 int vs_run(void) {
   int rc = 0;
+  bool stuck = false;
+  long waited_ms = 0;
+  g_used_freerun = 0;
   for (;;) {
     // wait for quiescence: nobody NEW or RUNNING
     for (;;) {
@@ -276,7 +304,28 @@ int vs_run(void) {
         if (s == S_NEW || s == S_RUNNING) busy = true;
       }
       if (!busy) break;
-      futex_wait(&g_sched_word, 0);
+      const long t_before = wall_ms();
+      futex_wait_ms(&g_sched_word, 0, 500);
+      if (g_sched_word.load() == 0 && wall_ms() - t_before >= 450) {
+        waited_ms += wall_ms() - t_before;
+        if (waited_ms >= g_watchdog_ms) { stuck = true; break; }
+      } else waited_ms = 0;
+    }
+    if (stuck) {
+      // stop serialising: everybody runs
+      g_freerun.store(1, std::memory_order_release);
+      for (int t = 0; t < g_nthreads; ++t) { g_go[t].store(1, std::memory_order_release); futex_wake(&g_go[t]); }
+      const long t0 = wall_ms();
+      bool all_done = false;
+      while (wall_ms() - t0 < g_freerun_ms) {
+        all_done = true;
+        for (int t = 0; t < g_nthreads; ++t) if (g_state[t].load(std::memory_order_acquire) != S_DONE) all_done = false;
+        if (all_done) break;
+        g_sched_word.store(0); futex_wait_ms(&g_sched_word, 0, 50);
+      }
+      g_used_freerun = 1;
+      rc = all_done ? 0 : 3;
+      break;
     }
     // collect
     int runnable[MAXT], nr = 0, ndone = 0, nblocked = 0, nstalled = 0;
@@ -357,8 +406,8 @@ uint64_t vs_event_hash(void) {
 
 static const char* reason_name(int r) {
   static const char* n[] = {"start", "op", "guard-pre", "guard-won", "guard-prerel", "guard-postrel",
-                            "guard-blocked", "preempt", "stall", "exit", "neighbour", "guard-abort"};
-  return (r >= 0 && r < 12) ? n[r] : "?";
+                            "guard-blocked", "preempt", "stall", "exit", "neighbour", "guard-abort", "lock", "lock-blocked", "unlock"};
+  return (r >= 0 && r < 15) ? n[r] : "?";
 }
 
 void vs_dump_events(FILE* f) {
@@ -435,6 +484,7 @@ int __wrap___cxa_guard_acquire(void* g) {
   const int t = tl_tid;
   if (gi < 0) { ++g_unknown_guard_acquires; return __real___cxa_guard_acquire(g); }
   GuardVar& gv = g_guards[gi];
+  if (in_freerun()) return __real___cxa_guard_acquire(g);
   if (t < 0 || !g_active) {
     int r = __real___cxa_guard_acquire(g);
     if (r) { gv.owner = -2; ++gv.acquires_won; FirstUse fu = {gi, -1, 0}; g_first_use.push_back(fu); }
@@ -471,7 +521,7 @@ static void unblock_waiters(const void* g) {
 void __wrap___cxa_guard_release(void* g) {
   const int gi = guard_index(g);
   const int t = tl_tid;
-  if (gi < 0) { __real___cxa_guard_release(g); return; }
+  if (gi < 0 || in_freerun()) { __real___cxa_guard_release(g); return; }
   GuardVar& gv = g_guards[gi];
   const bool sim = (t >= 0 && g_active);
   if (sim && g_guard_points) park(S_PARKED, VS_R_G_PREREL, (unsigned)gi);
@@ -490,7 +540,7 @@ void __wrap___cxa_guard_abort(void* g) {
   const int gi = guard_index(g);
   const int t = tl_tid;
   __real___cxa_guard_abort(g);
-  if (gi < 0) return;
+  if (gi < 0 || in_freerun()) return;
   GuardVar& gv = g_guards[gi];
   ++gv.aborts;
   gv.owner = -1;
@@ -499,6 +549,68 @@ void __wrap___cxa_guard_abort(void* g) {
     unblock_waiters(g);
     if (g_guard_points) park(S_PARKED, VS_R_G_ABORT, (unsigned)gi);
   }
+}
+
+// ===========================================================================
+// lock seam (-Wl,--wrap=pthread_mutex_lock,...): a simulated thread never blocks inside libpthread,
+// it is parked by the simulator and becomes runnable again when the owner unlocks.  Without this a
+// (correct) mutex-protected cache added to the library would hang the serialised schedule as soon as
+// the owner is pre-empted inside its critical section.
+// ===========================================================================
+int __real_pthread_mutex_lock(pthread_mutex_t*);
+int __real_pthread_mutex_trylock(pthread_mutex_t*);
+int __real_pthread_mutex_unlock(pthread_mutex_t*);
+int __real_pthread_once(pthread_once_t*, void (*)(void));
+// ASLR-independent name of a lock: its first-seen ordinal within the run
+static unsigned lock_ordinal(const void* m) {
+  for (int i = 0; i < g_nlock_seen; ++i) if (g_lock_seen[i] == m) return (unsigned)i;
+  if (g_nlock_seen < 256) { g_lock_seen[g_nlock_seen] = m; return (unsigned)g_nlock_seen++; }
+  return 255;
+}
+long vs_lock_blocks(void) { return g_lock_blocks; }
+long vs_lock_ops(void) { return g_lock_ops; }
+
+int __wrap_pthread_mutex_lock(pthread_mutex_t* m) {
+  const int t = tl_tid;
+  if (t < 0 || !g_active || in_freerun()) return __real_pthread_mutex_lock(m);
+  ++g_lock_ops;
+  if (g_guard_points) park(S_PARKED, VS_R_LOCK, lock_ordinal(m));
+  for (;;) {
+    if (in_freerun()) return __real_pthread_mutex_lock(m);
+    int r = __real_pthread_mutex_trylock(m);
+    if (r != EBUSY) return r;
+    ++g_lock_blocks;
+    g_blocked_on[t] = m;
+    park(S_BLOCKED, VS_R_LOCK_BLOCKED, lock_ordinal(m));
+  }
+}
+int __wrap_pthread_mutex_trylock(pthread_mutex_t* m) { return __real_pthread_mutex_trylock(m); }
+int __wrap_pthread_mutex_unlock(pthread_mutex_t* m) {
+  const int t = tl_tid;
+  int r = __real_pthread_mutex_unlock(m);
+  if (t < 0 || !g_active || in_freerun()) return r;
+  unblock_waiters(m);
+  if (g_guard_points) park(S_PARKED, VS_R_UNLOCK, lock_ordinal(m));
+  return r;
+}
+static pthread_once_t* g_once_inflight[MAXT];
+int __wrap_pthread_once(pthread_once_t* o, void (*f)(void)) {
+  const int t = tl_tid;
+  if (t < 0 || !g_active || in_freerun()) return __real_pthread_once(o, f);
+  for (;;) {
+    if (in_freerun()) return __real_pthread_once(o, f);
+    int owner = -1;
+    for (int u = 0; u < g_nthreads; ++u) if (u != t && g_once_inflight[u] == o) owner = u;
+    if (owner < 0) break;
+    ++g_lock_blocks;
+    g_blocked_on[t] = o;
+    park(S_BLOCKED, VS_R_LOCK_BLOCKED, 0);
+  }
+  g_once_inflight[t] = o;
+  int r = __real_pthread_once(o, f);   // runs f at most once; nobody else is inside
+  g_once_inflight[t] = nullptr;
+  unblock_waiters(o);
+  return r;
 }
 
 // ===========================================================================
